@@ -9,6 +9,7 @@ import (
 	"compress/gzip"
 	"fmt"
 	"math/rand"
+	"net/http"
 	"net/http/httptest"
 	"runtime"
 	"sync"
@@ -141,7 +142,14 @@ func poolRound(tw *traceWriter, r *rand.Rand, provider string, g, perG int) {
 					body := gzipBytes([]byte(fmt.Sprintf(`{"id":"%s","data":"d%s"}`, id, id)))
 					corrupt := rr.Intn(4) == 0
 					if corrupt {
-						body = body[:len(body)/2]
+						switch rr.Intn(3) {
+						case 0:
+							body = body[:len(body)/2] // truncated stream
+						case 1:
+							body = append([]byte{0x00, 0xff, 0x13}, body[3:]...) // bad magic: Reset itself fails
+						default:
+							body = body[:5] // cut inside the gzip header
+						}
 					}
 					hr, _ := buildRequest("POST", "/p/in", [][2]string{{"Content-Type", "application/json"}, {"Content-Encoding", "gzip"}}, body, false)
 					rec := httptest.NewRecorder()
@@ -178,12 +186,16 @@ func poolRound(tw *traceWriter, r *rand.Rand, provider string, g, perG int) {
 	}
 }
 
-func doubleClose(tw *traceWriter, provider, enc string) {
+// failing: the underlying writer accepts nothing (client gone): the compressor's own Close fails
+func doubleClose(tw *traceWriter, provider, enc string, failing bool) {
 	l := newReqLog()
 	prov := &ledgerProvider{inner: makeProvider(provider), ids: map[interface{}]int{}, trap: false, cur: l}
 	restful.SetCompressorProvider(prov)
 	defer restful.SetCompressorProvider(restful.NewSyncPoolCompessors())
-	rec := httptest.NewRecorder()
+	var rec http.ResponseWriter = httptest.NewRecorder()
+	if failing {
+		rec = &countingWriter{hdr: http.Header{}, budget: 0}
+	}
 	cw, err := restful.NewCompressingResponseWriter(rec, enc)
 	if err != nil {
 		return
@@ -198,7 +210,7 @@ func doubleClose(tw *traceWriter, provider, enc string) {
 			rels++
 		}
 	}
-	tw.emit(map[string]interface{}{"e": "pdbl", "provider": provider, "enc": enc, "firstErr": first != nil, "secondErr": second != nil && werr != nil, "rels": rels})
+	tw.emit(map[string]interface{}{"e": "pdbl", "provider": provider, "enc": enc, "failing": failing, "firstErr": first != nil, "secondErr": second != nil && werr != nil, "rels": rels})
 }
 
 func runPool(planPath, outPath string, seed int64) {
@@ -217,7 +229,8 @@ func runPool(planPath, outPath string, seed int64) {
 	}
 	for _, prov := range []string{"pool", "cache0", "cache1", "cache2"} {
 		for _, enc := range []string{"gzip", "deflate"} {
-			doubleClose(tw, prov, enc)
+			doubleClose(tw, prov, enc, false)
+			doubleClose(tw, prov, enc, true)
 		}
 		for i := 0; i < p.Rounds; i++ {
 			poolRound(tw, r, prov, p.G, p.PerG)
